@@ -402,7 +402,9 @@ class DocstringParser(AbstractDocstringParser):
                 griffe_node = griffe_node.functions[part]
             elif part in griffe_node.attributes:
                 griffe_node = griffe_node.attributes[part]
-            elif part == "__init__" and griffe_node.is_class:
+            elif griffe_node.is_class:
+                # Methods that are generated (constructors and comparisons of dataclasses, functools.total_ordering)
+                # are not part of the source code
                 return None
             else:  # pragma: no cover
                 raise ValueError(
